@@ -113,6 +113,10 @@ class RefTarget:
                 # a refusal carries a non-zero status; the session field of such a reply is meaningless (may be non-zero)
                 return self.enc_header(cmd, 4, self.cfg.get("session_refuse_handle", 0), self.cfg.get("session_refuse_status", 0x01), ctx) + b"\x01\x00\x00\x00"
             self.registered = True
+            # every registration is granted a handle of its own (a client must use the one it was given last, not one it remembers)
+            self.reg_count = getattr(self, "reg_count", 0) + 1
+            if self.reg_count > 1 and self.cfg.get("fresh_handles", True):
+                self.session_handle = ((self.cfg.get("session_handle", 0x11223344) + 0x9E3779B1 * (self.reg_count - 1)) & 0xFFFFFFFF) or 1
             return self.enc_header(cmd, 4, self.session_handle, 0, ctx) + b"\x01\x00\x00\x00"
 
         if cmd == ENC_UNREGISTER:
@@ -450,6 +454,7 @@ class RefTarget:
                     else:
                         return 0x01, [0x0312], b""
             else:
+                self.audit("C15", "ucsend.route", f"route {bytes(route).hex()} != configured route {self.expected_route.hex()}")
                 return 0x01, [0x0311], b""
         reply = target._dispatch_cip(msg, "ucsend", None, route=bytes(route))
         if target is not self:
